@@ -30,15 +30,56 @@ theorem collect_charge_congr {K} [Semiring K] (nw : Nat) (img : Nat → Int → 
   simp only [collect_charge_sum]
   exact Finset.sum_congr rfl fun l hl => by rw [h l (Finset.mem_range.mp hl)]
 
-/-- scalar, per-wavelength vector and sampled spectrum give the same electrons whenever they denote the same efficiency
-at the `nw` wavelengths (the spectrum's samples are the contract of `Spectrum.sample`) -/
-theorem qe_representations_agree {K} [Semiring K] (nw : Nat) (img : Nat → Int → Int → K) (q : K) (v s : Nat → K)
-    (hv : ∀ l, l < nw → v l = q) (hs : ∀ l, l < nw → s l = q) :
-    ∃ a b c, (QE.scalar q).asArray nw = some a ∧ (QE.vector nw v).asArray nw = some b ∧ (QE.spectrum s).asArray nw = some c ∧
+/-- `Spectrum.sample` does not depend on the wavelength unit of the request: asking at the same physical wavelengths expressed
+in another unit (`w · (wu → wu')`, factor regenerated from radiometry.py) returns the same values — for every pair of units -/
+theorem spectrum_sample_unit_invariant {K} [Field K] [LinearOrder K] [IsStrictOrderedRing K] (grid : List (K × K))
+    (su wu wu' : Gen.WUnit) (w : K) :
+    spectrumSample grid su (w * Gen.waveTo wu wu') wu' = spectrumSample grid su w wu := by
+  have hco : (Gen.waveTo su wu' : K) = Gen.waveTo su wu * Gen.waveTo wu wu' := by
+    cases su <;> cases wu <;> cases wu' <;> norm_num [Gen.waveTo]
+  have hpos : (0 : K) < Gen.waveTo wu wu' := by cases wu <;> cases wu' <;> norm_num [Gen.waveTo]
+  unfold spectrumSample
+  rw [← interpLin_scale (Gen.waveTo wu wu') hpos (grid.map fun p => (p.1 * Gen.waveTo su wu, p.2)) w, List.map_map]
+  congr 1
+  apply List.map_congr_left
+  intro p _
+  simp only [Function.comp, hco, mul_assoc]
+
+/-- scalar, per-wavelength vector and `Spectrum` give the same electrons when they denote the same efficiency `q`: the vector
+lists `q`, the spectrum is flat at `q` on a grid (in any unit `su`) whose band contains the requested wavelengths (given in any
+unit `wu`). The spectrum branch is `qe_asarray`'s `Spectrum.sample(wave, waveunit)`: unit conversion by the regenerated factor
+table followed by linear interpolation — derived here, not assumed. -/
+theorem qe_representations_agree {K} [Field K] [LinearOrder K] [IsStrictOrderedRing K] (nw : Nat) (img : Nat → Int → Int → K) (q : K)
+    (v : Nat → K) (grid : List (K × K)) (su wu : Gen.WUnit) (wave : Nat → K) (x0 xl : K)
+    (hv : ∀ l, l < nw → v l = q)
+    (hflat : ∀ p ∈ grid, p.2 = q) (hhead : grid.head? = some (x0, q)) (hlast : grid.getLast? = some (xl, q)) (hlen : 2 ≤ grid.length)
+    (hband : ∀ l, l < nw → x0 * Gen.waveTo su wu ≤ wave l ∧ wave l ≤ xl * Gen.waveTo su wu) :
+    ∃ a b c, (QE.scalar q).asArray nw = some a ∧ (QE.vector nw v).asArray nw = some b ∧
+      (QE.spectrumObj grid su wave wu).asArray nw = some c ∧
       ∀ i j, collectCharge nw img a i j = collectCharge nw img b i j ∧ collectCharge nw img b i j = collectCharge nw img c i j := by
-  refine ⟨fun _ => q, v, s, rfl, by simp [QE.asArray], rfl, fun i j => ⟨?_, ?_⟩⟩
+  refine ⟨fun _ => q, v, fun l => spectrumSample grid su (wave l) wu, rfl, by simp [QE.asArray], rfl, fun i j => ⟨?_, ?_⟩⟩
   · exact collect_charge_congr nw img _ _ (fun l hl => (hv l hl).symm) i j
-  · exact collect_charge_congr nw img _ _ (fun l hl => by rw [hv l hl, hs l hl]) i j
+  · apply collect_charge_congr nw img _ _ _ i j
+    intro l hl
+    rw [hv l hl]
+    symm
+    unfold spectrumSample
+    apply interpLin_flat q _ _ _ (x0 * Gen.waveTo su wu) (xl * Gen.waveTo su wu)
+    · simp [List.head?_map, hhead]
+    · simp [List.getLast?_map, hlast]
+    · simpa using hlen
+    · exact (hband l hl).1
+    · exact (hband l hl).2
+    · intro p hp
+      simp only [List.mem_map] at hp
+      obtain ⟨p', hp', rfl⟩ := hp
+      exact hflat p' hp'
+
+/-- non-vacuity: a flat spectrum at 1/2 given in nanometres on [400, 800] nm, asked at 0.5 and 0.7 micrometres -/
+example : spectrumSample (K := ℚ) [(400, 1/2), (600, 1/2), (800, 1/2)] .nm (1/2) .um = 1/2 ∧
+    spectrumSample (K := ℚ) [(400, 1/4), (600, 3/4)] .nm (1/2) .um = 1/2 ∧
+    spectrumSample (K := ℚ) [(400, 1/4), (600, 3/4)] .nm (39999/100000) .um = 0 := by
+  refine ⟨?_, ?_, ?_⟩ <;> norm_num [spectrumSample, interpLin, Gen.waveTo]
 
 example : (QE.vector 3 (fun l => (l : Int))).asArray 4 = none := by decide
 
@@ -74,6 +115,80 @@ theorem mosaic_shape_only_if_multiple {K} (kern : Img K) (d os R C : Int) (h0 : 
   simp only [mosaic, repeat1, repeat0, tile, h0, h1] at h
   exact ⟨⟨R / os / d, by rw [show d * os * (R / os / d) = os * (R / os / d * d) by ring]; exact h.1.symm⟩,
          ⟨C / os / d, by rw [show d * os * (C / os / d) = os * (C / os / d * d) by ring]; exact h.2.symm⟩⟩
+
+/-- the pattern string is refused (ValueError) exactly when it contains a letter other than R, G, B (in either case) or its
+length is not a perfect square; an accepted string of length `d²` is laid out row-major -/
+theorem format_bayer_string_spec (s : String) :
+    (formatBayer s = none ↔ (∃ c ∈ s.toList, colourOfChar c = none) ∨ ¬ ∃ d, d * d = s.toList.length) ∧
+    (∀ d p, formatBayer s = some (d, p) → d * d = s.toList.length ∧
+      ∀ a b : Nat, a * d + b < s.toList.length → some (p a b) = (s.toList[a * d + b]?).bind colourOfChar) := by
+  unfold formatBayer
+  by_cases hbad : (s.toList.map colourOfChar).any Option.isNone = true
+  · have hex : ∃ c ∈ s.toList, colourOfChar c = none := by
+      simp only [List.any_eq_true, List.mem_map, Option.isNone_iff_eq_none] at hbad
+      obtain ⟨x, ⟨c, hc, rfl⟩, hx⟩ := hbad; exact ⟨c, hc, hx⟩
+    simp [hbad, hex]
+  · have hgood : ∀ c ∈ s.toList, colourOfChar c ≠ none := by
+      intro c hc hn; apply hbad
+      simp only [List.any_eq_true, List.mem_map, Option.isNone_iff_eq_none]; exact ⟨_, ⟨c, hc, rfl⟩, hn⟩
+    simp only [hbad, Bool.false_eq_true, if_false, List.length_map]
+    cases hf : (List.range (s.toList.length + 1)).find? (fun d => d * d == s.toList.length) with
+    | none =>
+      rw [List.find?_eq_none] at hf
+      refine ⟨⟨fun _ => Or.inr ?_, fun _ => rfl⟩, by simp⟩
+      rintro ⟨d, hd⟩
+      have hle : d < s.toList.length + 1 := by
+        have : d ≤ d * d := Nat.le_mul_self d
+        omega
+      exact hf d (List.mem_range.mpr hle) (by simp [hd])
+    | some d =>
+      have hd : d * d = s.toList.length := by simpa using List.find?_some hf
+      refine ⟨⟨fun h => by simp at h, fun h => ?_⟩, ?_⟩
+      · rcases h with ⟨c, hc, hn⟩ | h
+        · exact absurd hn (hgood c hc)
+        · exact absurd ⟨d, hd⟩ h
+      · intro d' p hp
+        simp only [Option.some.injEq, Prod.mk.injEq] at hp
+        obtain ⟨rfl, rfl⟩ := hp
+        refine ⟨hd, fun a b hab => ?_⟩
+        have hidx : ((a : Int) * (d : Int) + (b : Int)).toNat = a * d + b := by omega
+        simp only [hidx, List.getElem?_map]
+        cases hc : s.toList[a * d + b]? with
+        | none => exact absurd hc (by simp [List.getElem?_eq_none_iff]; omega)
+        | some c =>
+          have := hgood c (List.mem_of_getElem? hc)
+          cases hcc : colourOfChar c with
+          | none => exact absurd hcc this
+          | some col => simp [hcc]
+
+example : (formatBayer "rgGb").map (·.1) = some 2 ∧ formatBayer "RGB" = none ∧ formatBayer "RGGX" = none := by decide
+
+/-- for image sizes that are multiples of pattern × oversampling the product `electrons * mosaic` has the image's shape -/
+theorem bayer_shape_of_multiple (d os a b : Int) (hd : 0 < d) (hos : 0 < os) :
+    bayerShape (d * os * a) (d * os * b) d os = some (d * os * a, d * os * b) := by
+  have h := mosaic_shape (K := Int) { s0 := d, s1 := d, get := fun _ _ => 0 } d os a b hd hos rfl rfl
+  simp only [bayerShape, h.1, h.2, bcast, if_true]
+
+/-- what the code does outside the property's quantifier: a one-row image that is not a multiple of `d·os` is not refused —
+NumPy broadcasts it against the empty mosaic and the result has **zero rows** (witness: `collect_charge_bayer(ones((1,1,4)), …,
+'RGGB')` returns shape (0, 4)); with two or more rows a non-multiple is refused -/
+theorem bayer_one_row_broadcasts_empty (C d os : Int) (hd : 0 < d) (hos : 0 < os) (h : 1 < d * os) :
+    ∃ c, bcast 1 (mosaic (K := Int) { s0 := d, s1 := d, get := fun _ _ => 0 } 1 C os).s0 = some 0 ∧
+      (bayerShape 1 C d os = none ∨ bayerShape 1 C d os = some (0, c)) := by
+  have hz : (mosaic (K := Int) { s0 := d, s1 := d, get := fun _ _ => 0 } 1 C os).s0 = 0 := by
+    simp only [mosaic, repeat1, repeat0, tile]
+    rcases lt_or_ge 1 os with h1 | h1
+    · rw [Int.ediv_eq_zero_of_lt (by omega) h1]; simp
+    · have : os = 1 := by omega
+      subst this
+      have hd1 : 1 < d := by simpa using h
+      rw [Int.ediv_one, Int.ediv_eq_zero_of_lt (by omega) hd1]; simp
+  simp only [bayerShape, hz, bcast]
+  cases hc : (if C = (mosaic (K := Int) { s0 := d, s1 := d, get := fun _ _ => 0 } 1 C os).s1 then some C
+      else if C = 1 then some (mosaic (K := Int) { s0 := d, s1 := d, get := fun _ _ => 0 } 1 C os).s1
+      else if (mosaic (K := Int) { s0 := d, s1 := d, get := fun _ _ => 0 } 1 C os).s1 = 1 then some C else none) with
+  | none => exact ⟨0, by simp, Or.inl (by simp [hc])⟩
+  | some c => exact ⟨c, by simp, Or.inr (by simp [hc])⟩
 
 /-- mosaic index theorem: entry `(i, j)` of the colour-`c` mosaic is the kernel entry `[(i / os) % d][(j / os) % d]` -/
 theorem mosaic_eq_tiled_pattern {K} [Zero K] [One K] (pattern : Int → Int → Colour) (c : Colour) (d os R C i j : Int) :
